@@ -17,6 +17,10 @@ Check(t) ==
                   [la |-> t.la_eq, n |-> Len(t.pro_kids)])
         /\ Report("C11_LicenceUrlNamesKeys", C11_LicenceUrlNamesKeys(t.has_cfgs, t.all_kids, t.all_keys, t.cfg_kids, t.cfg_keys),
                   [n |-> Len(t.cfg_kids), want |-> Len(t.all_kids)])
+    ELSE IF t.ev = "stream_la" THEN
+        \* the licence URL stored with a stream is the LA_URL of every PlayReady Object in its manifests
+        Report("C11_StreamLicenceUrl", t.status = 200 /\ Len(t.got) >= 1 /\ \A i \in 1..Len(t.got) : t.got[i] = t.expected,
+               [got |-> t.got, expected |-> t.expected])
     ELSE IF t.ev = "clearkey" THEN
         Report("C11_ClearKeyExact", t.status = 200 /\ C11_ClearKeyExact(ToSet(t.store), t.requested, t.response), Len(t.response))
     ELSE IF t.ev = "cp" THEN
